@@ -189,6 +189,7 @@ def run(res, drv, tier, seed):
                      'eigs': [enc_q(Fr(e).limit_denominator(10**9)) for e in eigs]})
     res.extra['spellings_used'] = dict(SPELLINGS)
     history_loss(res, r, tier)
+    l1_stream(res, drv, r, tier)
     resps = drv.run(reqs) if drv else [None] * n
     for (canon, bad, key, rp, eng, mu, meas, loss, grad, lip), resp in zip(rows, resps):
         if bad:
@@ -273,6 +274,74 @@ def history_loss(res, r, tier):
         if not close(loss, want, 1e-9, 1e-9):
             res.violation('failing-input', f'after a second setup ({mode}, warm_start={warm}) the engine\'s loss is {loss}, the sum over the second call\'s measurements (each once) is {want}',
                           {'request': canon, 'observed': loss, 'expected': want}, key='loss:history')
+
+
+def l1_stream(res, drv, r, tier):
+    """metric='L1': the loss is the sum over all measurements (each once) of the absolute noise-scaled residuals, the gradient the
+    corresponding subgradient c*Q^T sign(diff); exact comparison with the Lean model marginalLossL1 and with the specification"""
+    from mbi import Domain, FactoredInference
+    n = 40 if tier == 'quick' else 400
+    reqs, rows = [], []
+    for _ in range(n):
+        dom, meas, table = gen_case(r)
+        sizes = dict(map(tuple, dom))
+        d = Domain([a for a, _ in dom], [s for _, s in dom])
+        eng = FactoredInference(d, iters=1, metric='L1')
+        with np.errstate(all='ignore'):
+            ms = eng.fix_measurements([spell(r, m, r.choice([0, 1])) for m in meas])
+            eng._setup(ms, 100.0)
+            mu = cliquevec(eng, dom, lambda cl: marg_of_table(dom, table, list(cl)))
+            loss, grad = eng._marginal_loss(mu)
+            h = cliquevec(eng, dom, lambda cl: [r.randint(-3, 3) for _ in range(math.prod(sizes[a] for a in cl))])
+            lh, _ = eng._marginal_loss(mu + h)
+            gh = grad.dot(h)
+        spec = Fr(0)
+        for m in meas:
+            x = marg_of_table(dom, table, m['proj'])
+            c = 1 / Fr(m['noise'])
+            for row, yi in zip(m['Q'], m['y']):
+                spec += abs(c * (sum(Fr(int(q)) * xv for q, xv in zip(row, x)) - Fr(int(yi))))
+        canon = {'dom': dom, 'metric': 'L1', 'meas': [{'Q': m['Q'].tolist(), 'y': m['y'].tolist(), 'noise': m['noise'], 'proj': m['proj']} for m in meas],
+                 'table': [int(v) for v in table.values()]}
+        res.case(canon, len(meas) >= 2)
+        res.count('metric L1')
+        bad = None
+        if not close(loss, float(spec), 1e-9, 1e-9):
+            bad = f'L1 loss {loss} != sum over measurements (each once) of the absolute scaled residuals {float(spec)}'
+        elif lh < loss + gh - 1e-7 * (abs(loss) + abs(gh) + 1):
+            bad = f'L1: L(mu+h) = {lh} < L(mu) + <g,h> = {loss + gh}: the returned gradient is not a subgradient of the loss'
+        rows.append((canon, bad, loss, grad, eng))
+        reqs.append({'op': 'loss', 'l1': True, 'dom': dom, 'cliques': [list(c) for c in eng.model.cliques],
+                     'meas': [{'Q': [[enc_q(int(v)) for v in row] for row in m['Q']], 'y': [enc_q(int(v)) for v in m['y']],
+                               'noise': enc_q(Fr(m['noise']).limit_denominator(1000)), 'proj': m['proj']} for m in meas],
+                     'mu': [{'clique': list(cl), 'dom': [[a, sizes[a]] for a in cl], 'vals': [enc_q(int(v)) for v in mu[cl].values.flatten()]} for cl in eng.model.cliques],
+                     'eigs': [enc_q(1) for _ in meas]})
+    resps = drv.run(reqs) if drv else [None] * len(reqs)
+    for (canon, bad, loss, grad, eng), resp in zip(rows, resps):
+        rp = {'request': canon, 'observed': {'loss': loss}}
+        if bad:
+            res.violation('failing-input', bad, dict(rp, expected=bad), key='loss:l1')
+            continue
+        if resp is None:
+            continue
+        if not resp['ok']:
+            res.violation('correspondence', 'driver error ' + resp['err'], dict(rp, stream='C04.l1'))
+            continue
+        o = resp['out']
+        dmsg = None
+        if not close(float(dec_q(o['loss'])), loss, 1e-9, 1e-9):
+            dmsg = f'L1 loss: model {float(dec_q(o["loss"]))} impl {loss}'
+        else:
+            for e in o['grad']:
+                gi = grad[tuple(e['clique'])]
+                for k, (mv, iv) in enumerate(zip(e['vals'], gi.values.flatten())):
+                    if not close(float(dec_q(mv)), float(iv), 1e-9, 1e-9):
+                        dmsg = f'L1 gradient on {e["clique"]} cell {k}: model {float(dec_q(mv))} impl {iv}'
+                        break
+                if dmsg:
+                    break
+        if dmsg:
+            res.violation('correspondence', dmsg + '; the independent checks hold on this input', dict(rp, model=o, stream='C04.l1'))
 
 
 def search(res, tier, seed, broken):
